@@ -260,6 +260,46 @@ def run_other_association(ctx):
                 ctx.fail(v.key, v.what, v.case)
 
 
+def run_backlog(ctx, n_msgs=1100):
+    """A local user that is slow to fetch: the peer pipelines n complete messages, nothing is fetched, then the
+    association ends in each way.  The provider must still notice the end, return to idle and close."""
+    echo = refpdu.enc_pdu(convs.echo_rq(1))
+    endings = {'peer-close': [{'k': 'close', 'eager': False}],
+               'peer-close-at-once': [{'k': 'close', 'eager': True}],
+               'peer-abort': [{'k': 'seg', 'data': refpdu.enc_pdu(convs.ABORT_SU), 'eager': False}, {'k': 'close', 'eager': False}],
+               'peer-release': [{'k': 'seg', 'data': refpdu.enc_pdu(convs.REL_RQ), 'eager': False},
+                                {'k': 'user', 'prim': convs.user_prim({'pdu': convs.REL_RP})}, {'k': 'close', 'eager': False}],
+               'peer-silent-after-local-abort': [{'k': 'user', 'prim': convs.user_prim({'pdu': convs.ABORT_SU})},
+                                                 {'k': 'tick', 'dt': ARTIM + 1.0}],
+               'kill': [{'k': 'kill'}]}
+    for n in (n_msgs, 40):
+        for name, ending in sorted(endings.items()):
+            case = {'kind': 'backlog', 'messages': n, 'ending': name}
+            actions = [{'k': 'seg', 'data': refpdu.enc_pdu(convs.RQ_SPEC), 'eager': False},
+                       {'k': 'user', 'prim': convs.user_prim({'pdu': convs.AC_SPEC})}]
+            chunk = 50
+            for i in range(0, n, chunk):
+                actions.append({'k': 'seg', 'data': echo * min(chunk, n - i), 'eager': i > 0})
+            actions += ending + [{'k': 'tick', 'dt': 1.0}]
+            sim = simnet.run_scenario('acceptor', actions, budget=60 * n + 20000)
+            ctx.case(('backlog', n, name), True, labels=['unfetched-backlog', 'ending=' + name, 'messages=%d' % n], sample=case)
+            try:
+                if name == 'kill':
+                    # a stop request always completes (the loop returns); nothing else is promised about it
+                    if sim.outcome[0] != 'returned' or not sim.final()['loop_exited_flag']:
+                        raise Violation('C13:kill:%s' % sim.outcome[0], 'stop request with %d indications not fetched: '
+                                        'run() outcome %r' % (n, sim.outcome), case)
+                    continue
+                end_oracle('backlog-%d' % n, sim, case, True, name in ('peer-silent-after-local-abort', 'peer-release'),
+                           '%d indications not fetched, then %s' % (n, name))
+                got = len([i for i in sim.indications() if isinstance(i, tuple)])
+                if got != n and name != 'peer-close-at-once':
+                    raise Violation('C13:backlog:lost', '%d of %d pipelined messages were indicated before %s'
+                                    % (got, n, name), case)
+            except Violation as v:
+                ctx.fail(v.key, v.what, v.case)
+
+
 def full_script(steps):
     actions = []
     for s in steps:
@@ -360,7 +400,7 @@ def run(ctx):
     ctx.rule = ('for each of %d conversations (both roles): peer disconnect after EVERY byte prefix of the peer\'s '
                 'stream, with and without the next local step racing the disconnect; peer silence at each of 13 '
                 'points where ARTIM is armed (with a silent peer, a chattering peer and a peer that stalls in the middle of a PDU), checked just before and '
-                'just after the deadline; another association served to completion in the same process while a provider waits on ARTIM; a stop request (kill) and stop() at every quiescent point of every '
+                'just after the deadline; another association served to completion in the same process while a provider waits on ARTIM; a local user that fetches nothing while the peer pipelines 40 / 1100 messages, followed by each way of ending; a stop request (kill) and stop() at every quiescent point of every '
                 'conversation; Association.kill() for both stop() outcomes; non-trivial = cut strictly inside the '
                 'conversation, or a silence/kill/stop variant; distinct by (kind, conversation, position)' % len(c))
     ctx.assumptions = ['"bounded time" is simulated time; an unresponsive peer is modelled as silence',
@@ -369,6 +409,7 @@ def run(ctx):
     parallel(ctx, run_conv, [{'conv': n, 'thorough': ctx.thorough} for n in sorted(c)])
     run_silence(ctx)
     run_other_association(ctx)
+    run_backlog(ctx)
     run_assoc_kill(ctx)
 
 
@@ -387,6 +428,8 @@ def replay(case):
         run_silence(sub, (case['point'], case['chatter']))
     elif k == 'other-association':
         run_other_association(sub)
+    elif k == 'backlog':
+        run_backlog(sub)
     else:
         run_assoc_kill(sub)
     for key, ent in sorted(sub.failures.items()):
